@@ -22,14 +22,17 @@ AtomsFull ==
     A({3}, 111..121, 235000), A({103}, {122}, 100000),
     [A({0}, {123}, 25000) EXCEPT !.nrd = TRUE], A({5}, {124}, 30000), A({0}, {125}, 1000),
     A({2}, {126}, 250000), A({126}, {127}, 25000), A({127}, {128}, 100000), A({0}, {129}, 75000)>>
-SubsFull == {{a} : a \in 1..19} \cup {{1, 2}, {1, 3}, {3, 12}, {2, 8}}
+\* {2, 6}, {16, 7}, {2, 15}: an UNDER-paying atom aggregated with a well-paying one; the aggregate as a whole pays enough
+\* (74999 >= 50000; (250000 + 37500) >> 1 >= 50000; 51000 >= 50000), the remainder left after deaggregating the pooled
+\* partner does not
+SubsFull == {{a} : a \in 1..19} \cup {{1, 2}, {1, 3}, {3, 12}, {2, 8}, {2, 6}, {16, 7}, {2, 15}}
 
 \* small universe for exhaustive checking: parent with two outputs, second parent, child, two-parent child,
 \* conflicting spend, under-payer, immature coinbase spend, locked kernel
 AtomsSmall ==
   <<A({1}, {100, 101}, 46000), A({2}, {102}, 50000), A({100}, {103}, 25000), A({101, 102}, {104}, 26000),
     A({1}, {105}, 75000), A({3}, {106}, 1000), A({4}, {109}, 25000), [A({0}, {110}, 25000) EXCEPT !.lock = 7]>>
-SubsSmall == {{a} : a \in 1..8} \cup {{1, 2}, {1, 3}}
+SubsSmall == {{a} : a \in 1..8} \cup {{1, 2}, {1, 3}, {2, 6}}     \* {2, 6}: over-payer + under-payer, 51000 >= 50000
 
 CONSTANTS MaxBlockTxs, MaxReorgDepth, SimProfile
 
@@ -80,7 +83,10 @@ SimSubmit ==
   \E r \in {RandomElement(1..10)} :
   \E c4 \in {{RandomElement(Subs), RandomElement(Subs), RandomElement(Subs), RandomElement(Subs)}} :
   \E good \in {{t \in c4 : Fluff(t).res # "reject"}} :
-  \E t \in {IF r <= 6 /\ good # {} THEN RandomElement(good) ELSE RandomElement(c4)} :
+  \* aggregated forms of something that is in the public pool right now (the deaggregation path)
+  \E deagg \in {{t \in Subs : Cardinality(t) > 1 /\ t \notin SeqToSet(txpool) /\ \E x \in SeqToSet(txpool) : x \subseteq t}} :
+  \E t \in {IF r <= 6 /\ good # {} THEN RandomElement(good)
+             ELSE IF r = 10 /\ deagg # {} THEN RandomElement(deagg) ELSE RandomElement(c4)} :
   \E st \in {RandomElement(1..10)} :
      /\ Submit(t, st <= 3, st # 1)
      /\ (last'.evict /\ last'.allowed # {}) => last'.victim = Guess(last'.pre, last'.allowed)
@@ -133,9 +139,13 @@ Scripts == <<
   \* 7: header-first propagation: the header chain is one ahead of the body chain; maturity and lock height
   \*    stay relative to the body head
   <<Hdr({}), Sub({9}), Sub({10}), StemSub({9}), Sub({14}), Sub({2}), Blk({}), Sub({9}), Sub({10}), Hdr({9}), Sub({14}), StemSub({14}),
-    Blk({9}), Sub({14})>>
+    Blk({9}), Sub({14})>>,
+  \* 8: the minimum fee is demanded of the REMAINDER that is admitted after deaggregation: an under-paying tx (6: short
+  \*    by 1; 7: short once shifted; 15: far below) submitted aggregated with a pooled well-paying tx (2, 16) is refused
+  \*    although the aggregate as a whole pays enough; as stem tx (no deaggregation) it conflicts with the pooled part
+  <<Sub({2}), Sub({6}), Sub({2, 6}), Sub({16}), Sub({16, 7}), Sub({2, 15}), StemSub({2, 6}), Sub({15})>>
 >> \o (IF ShortReorg THEN <<
-  \* 8: a heavier but shorter fork lowers the height: the spend of coinbase 5 admitted at maturity is immature again
+  \* 9: a heavier but shorter fork lowers the height: the spend of coinbase 5 admitted at maturity is immature again
   <<Blk({}), Blk({}), Sub({14}), Sub({10}), Rg(2, <<{}>>), Sub({19}), Blk({}), Sub({14})>> >> ELSE <<>>)
 ScriptInit == Init /\ hist = <<>> /\ script \in 1..Len(Scripts)
 ScriptNext ==
